@@ -174,9 +174,15 @@ fn gen_answer(rng: &mut StdRng, id: i64, is_sub: bool) -> Value {
 	}
 }
 
+/// Single-threaded runtimes that differ in how often the driver future (a front-end caller itself, see client_rig::observe)
+/// gets a turn between the client's background tasks: after every task, after every second one, tokio's default (61).
+fn runtimes() -> Vec<tokio::runtime::Runtime> {
+	[1u32, 61, 2].iter().map(|n| tokio::runtime::Builder::new_current_thread().enable_all().event_interval(*n).build().unwrap()).collect()
+}
+
 pub fn run(gname: &str, nscen: usize, out_path: &str) {
 	let g = group(gname);
-	let rt = tokio::runtime::Builder::new_current_thread().enable_all().build().unwrap();
+	let rts = runtimes();
 	let mut outf = crate::common::Out::create(out_path);
 	let prev = std::panic::take_hook();
 	let panics: Arc<parking_lot::Mutex<Vec<String>>> = Default::default();
@@ -188,7 +194,7 @@ pub fn run(gname: &str, nscen: usize, out_path: &str) {
 	}
 	for sc in 0..nscen {
 		let mut rng = rng_for(sc, gname.len());
-		let evs = rt.block_on(scenario(&g, &mut rng, sc, &panics));
+		let evs = rts[(sc / 3) % rts.len()].block_on(scenario(&g, &mut rng, sc, &panics));
 		for e in evs {
 			outf.raw(&e);
 		}
@@ -203,6 +209,7 @@ async fn scenario(g: &Group, rng: &mut StdRng, sc: usize, panics: &Arc<parking_l
 	let tracer = rig.tracer.clone();
 	ENDED.with(|e| e.borrow_mut().clear());
 	tracer.ev(json!({"ev": "Reset", "sc": sc, "group": g.name, "string_ids": string_ids}));
+	set_observer(Some((rig.client.clone(), tracer.clone())));
 	let mut slots: BTreeMap<String, SubSlot> = BTreeMap::new();
 	for (h, k, _) in &g.ops {
 		if *k == "sub" {
@@ -353,7 +360,39 @@ async fn scenario(g: &Group, rng: &mut StdRng, sc: usize, panics: &Arc<parking_l
 			}
 		} else if roll < (if g.name == "faulty" { 96 } else { 90 }) && !faulted {
 			faulted = true;
-			match rng.random_range(0..3) {
+			match rng.random_range(0..5) {
+				3 | 4 => {
+					// both halves of the transport break at the same moment: the receive side reports first, the next write fails too
+					let f = if rng.random_bool(0.5) { "recvErr" } else { "peerClose" };
+					let during_write = rng.random_bool(0.6) && unstarted.len() >= 2 && !rig.faults.hold.load(std::sync::atomic::Ordering::SeqCst);
+					if during_write {
+						// ... while a write is in progress and another message waits behind it (a connection reset under load)
+						rig.faults.hold.store(true, std::sync::atomic::Ordering::SeqCst);
+						tracer.ev(json!({"ev": "Hold"}));
+						for _ in 0..2 {
+							let i = unstarted.remove(rng.random_range(0..unstarted.len()));
+							let (h, k, n) = g.ops[i];
+							let (jh, ab) = start_op_abandonable(&rig, h, k, n, &slots);
+							tasks.push(jh);
+							abandon.insert(h.to_string(), ab);
+							settle(rng.random_range(2..6)).await;
+						}
+					}
+					inject(f, &rig, &tracer);
+					inject("sendErr", &rig, &tracer);
+					if during_write {
+						rig.faults.hold.store(false, std::sync::atomic::Ordering::SeqCst);
+						tracer.ev(json!({"ev": "Release"}));
+					}
+					if !unstarted.is_empty() {
+						// (something to write, so that the send side notices as well)
+						let i = unstarted.remove(rng.random_range(0..unstarted.len()));
+						let (h, k, n) = g.ops[i];
+						let (jh, ab) = start_op_abandonable(&rig, h, k, n, &slots);
+						tasks.push(jh);
+						abandon.insert(h.to_string(), ab);
+					}
+				}
 				0 => {
 					tracer.ev(json!({"ev": "Fault", "f": "sendErr"}));
 					rig.faults.send_err.store(true, std::sync::atomic::Ordering::SeqCst);
@@ -432,6 +471,7 @@ async fn wind_down(rig: &Rig, tracer: &Tracer, tasks: Vec<tokio::task::JoinHandl
 	for p in panics.lock().drain(..) {
 		tracer.ev(json!({"ev": "Panic", "where": p}));
 	}
+	set_observer(None);
 	tracer.ev(json!({"ev": "End"}));
 }
 
@@ -491,7 +531,7 @@ fn inject(f: &str, rig: &Rig, tracer: &Tracer) {
 pub fn run_scripts(gname: &str, scripts_path: &str, out_path: &str) {
 	let g = group(gname);
 	let scripts = crate::common::read_cases(scripts_path);
-	let rt = tokio::runtime::Builder::new_current_thread().enable_all().build().unwrap();
+	let rts = runtimes();
 	let mut outf = crate::common::Out::create(out_path);
 	let prev = std::panic::take_hook();
 	let panics: Arc<parking_lot::Mutex<Vec<String>>> = Default::default();
@@ -503,7 +543,7 @@ pub fn run_scripts(gname: &str, scripts_path: &str, out_path: &str) {
 	}
 	for (sc, script) in scripts.iter().enumerate() {
 		let mut rng = rng_for(sc, 77 + gname.len());
-		let evs = rt.block_on(scripted(&g, &mut rng, sc, script, &panics));
+		let evs = rts[(sc / 3) % rts.len()].block_on(scripted(&g, &mut rng, sc, script, &panics));
 		for e in evs {
 			outf.raw(&e);
 		}
@@ -527,6 +567,7 @@ async fn scripted(g: &Group, rng: &mut StdRng, sc: usize, script: &Value, panics
 	let tracer = rig.tracer.clone();
 	ENDED.with(|e| e.borrow_mut().clear());
 	tracer.ev(json!({"ev": "Reset", "sc": sc, "group": g.name, "string_ids": string_ids, "scripted": true}));
+	set_observer(Some((rig.client.clone(), tracer.clone())));
 	let mut slots: BTreeMap<String, SubSlot> = BTreeMap::new();
 	for (h, k, _) in &g.ops {
 		if *k == "sub" {
@@ -538,6 +579,7 @@ async fn scripted(g: &Group, rng: &mut StdRng, sc: usize, script: &Value, panics
 	let mut started: Vec<String> = vec![];
 	let mut abandon: BTreeMap<String, tokio::sync::oneshot::Sender<()>> = BTreeMap::new();
 	let mut faulted = false;
+	let mut nfaults = 0;
 	// how eagerly the client is allowed to run between two steps of this script
 	// (goal-directed scripts ask for the pace of their model: the environment acts when the client has come to rest)
 	let pace = script["pace"].as_u64().unwrap_or_else(|| rng.random_range(0..3));
@@ -579,7 +621,8 @@ async fn scripted(g: &Group, rng: &mut StdRng, sc: usize, script: &Value, panics
 				}
 				stream_step(step["op"].as_str().unwrap(), step["h"].as_str().unwrap(), &slots, &tracer, &mut tasks);
 			}
-			"fault" if !faulted => {
+			"fault" if nfaults < 2 => {
+				nfaults += 1;
 				faulted = true;
 				inject(step["f"].as_str().unwrap(), &rig, &tracer);
 			}
